@@ -3,7 +3,7 @@
    Only the property theorems; proofs are in ProofsOps.v / ProofsAnalysis.v / ProofsUser.v.
    gamma r rho v  :=  exists b, ieval rho (base r) = Some b /\ lo r <= v - b <= hi r   (None = no bound). *)
 From Coq Require Import ZArith List Bool.
-From Range Require Import Model Gen_Range ModelAnalysis ProofsOps ProofsAnalysis ProofsUser.
+From Range Require Import Model Gen_Range ModelAnalysis ProofsOps ProofsAnalysis ProofsUser ProofsFold.
 Import ListNotations.
 Open Scope Z_scope.
 
@@ -23,29 +23,26 @@ Theorem C13_ops :
 Proof. exact ops_sound_holds. Qed.
 Print Assumptions C13_ops.
 
-(* the join `|` is NOT an upper bound of its operands ... *)
-Theorem C13_join_refuted :
-  exists a b rv rho v, ir_or a (RRange b) = Ok rv /\ gamma a rho v /\ ~ gamma_val rv rho v.
-Proof. exact ir_or_refuted. Qed.
-Print Assumptions C13_join_refuted.
-
-(* ... not even when every operand is bounded on both sides (chains of joins) ... *)
-Theorem C13_join_chain_refuted :
-  exists a b c r1 r2 rho v,
-    lo a <> None /\ hi a <> None /\ lo b <> None /\ hi b <> None /\ lo c <> None /\ hi c <> None /\
-    ir_or a (RRange b) = Ok (RRange r1) /\ ir_or r1 (RRange c) = Ok (RRange r2) /\
-    gamma b rho v /\ ~ gamma r2 rho v.
-Proof. exact ir_or_chain_refuted. Qed.
-Print Assumptions C13_join_chain_refuted.
-
-(* ... it is one when name-equal bases have equal values and both operands are unbounded on the same sides *)
-Theorem C13_join_partial : forall a b rv rho v,
+(* the join `|` contains both operands, provided the bases that LoopIR_Compare identifies BY NAME have the
+   same value ... *)
+Theorem C13_join : forall a b rv rho v,
   ir_or a (RRange b) = Ok rv ->
   (match_e (base a) (base b) = true -> ieval rho (base a) = ieval rho (base b)) ->
-  (lo a = None <-> lo b = None) -> (hi a = None <-> hi b = None) ->
   gamma a rho v \/ gamma b rho v -> gamma_val rv rho v.
-Proof. exact ir_or_partial. Qed.
-Print Assumptions C13_join_partial.
+Proof. exact ir_or_sound. Qed.
+Print Assumptions C13_join.
+
+(* ... which holds for every valuation that gives equally named symbols equal values ... *)
+Theorem C13_join_named : forall rho, name_determined rho ->
+  forall a b, match_e a b = true -> ieval rho a = ieval rho b.
+Proof. exact match_e_eval. Qed.
+Print Assumptions C13_join_named.
+
+(* ... and is needed: two different Syms with one name are merged (open finding C13-join-name-only) *)
+Theorem C13_join_name_refuted :
+  exists a b rv rho v, ir_or a (RRange b) = Ok rv /\ gamma b rho v /\ ~ gamma_val rv rho v.
+Proof. exact ir_or_name_refuted. Qed.
+Print Assumptions C13_join_name_refuted.
 
 (* ---- _check_range (TRANSLATED) *)
 Theorem C13_check_range : forall r0 op r1 v0 v1,
@@ -84,6 +81,10 @@ Theorem C13_loop_iter : forall env rho x lo_e hi_e env' vl vh vx,
   env_sound env' (upd rho x vx).
 Proof. exact add_loop_iter_sound. Qed.
 Print Assumptions C13_loop_iter.
+
+Theorem C13_scope_enter : forall env rho, env_sound env rho -> env_sound (enter_scope env) rho.
+Proof. exact env_sound_enter. Qed.
+Print Assumptions C13_scope_enter.
 
 Theorem C13_scope_exit : forall env rho x b,
   env_sound env rho -> env_sound (exit_scope (env_set (enter_scope env) x b)) rho.
@@ -133,17 +134,36 @@ Theorem C13_user_level_shadow_refuted :
 Proof. exact u_infer_range_shadow_refuted. Qed.
 Print Assumptions C13_user_level_shadow_refuted.
 
-Theorem C13_bounds_inference_refuted :
+Theorem C13_user_level_named : forall loops e rho rv v,
+  name_determined rho -> Forall (loop_ok rho) loops ->
+  u_infer_range loops e = Ok rv -> ieval rho e = Some v -> gamma_val rv rho v.
+Proof. exact u_infer_range_named. Qed.
+Print Assumptions C13_user_level_named.
+
+Theorem C13_bounds_inference_partial : forall accs rho r loops e v,
+  name_determined rho ->
+  u_bounds_inference accs = Ok (Some r) -> In (loops, e) accs ->
+  Forall (loop_ok rho) loops -> ieval rho e = Some v -> gamma_val r rho v.
+Proof. exact u_bounds_inference_sound. Qed.
+Print Assumptions C13_bounds_inference_partial.
+
+Theorem C13_bounds_inference_name_refuted :
   exists accs rho r loops e v,
     u_bounds_inference accs = Ok (Some r) /\ In (loops, e) accs /\
-    names_unique loops e /\ Forall (loop_ok rho) loops /\ ieval rho e = Some v /\ ~ gamma_val r rho v.
-Proof. exact u_bounds_inference_refuted. Qed.
-Print Assumptions C13_bounds_inference_refuted.
+    Forall (loop_ok rho) loops /\ ieval rho e = Some v /\ ~ gamma_val r rho v.
+Proof. exact u_bounds_inference_name_refuted. Qed.
+Print Assumptions C13_bounds_inference_name_refuted.
 
-(* ---- fold-buffer helper *)
-Theorem C13_partial_eval_refuted :
-  exists self var rng rv rho v,
-    partial_eval_with_range self var rng = Ok rv /\
-    gamma rng rho (rho var) /\ gamma self rho v /\ ~ gamma_val rv rho v.
-Proof. exact partial_eval_refuted. Qed.
-Print Assumptions C13_partial_eval_refuted.
+(* ---- fold-buffer helper: eliminating the loop variable `var` (ranging over rng) from the window `self`;
+   `lin` is the class invariant of bases (linear, no constant term), established by the analysis itself *)
+Theorem C13_partial_eval : forall self var rng rv rho v,
+  lin (base self) = true ->
+  partial_eval_with_range self var rng = Ok rv ->
+  gamma rng rho (rho var) -> gamma self rho v -> gamma_val rv rho v.
+Proof. exact partial_eval_sound. Qed.
+Print Assumptions C13_partial_eval.
+
+Theorem C13_analysis_bases_linear : forall env e rv,
+  no_div e = true -> analyze env e = Ok rv -> lin_rv rv.
+Proof. exact analyze_lin. Qed.
+Print Assumptions C13_analysis_bases_linear.
